@@ -108,3 +108,16 @@ Print Assumptions C05_pq_new_first_occ.
 Print Assumptions C05_pq_empty_panics.
 Print Assumptions C05_pq_drain_sorted.
 Print Assumptions C05_orders_strict_weak.
+
+(* ---- translator tie: the index arithmetic of internal/heap (parent, children), translated from the Go
+        source on every run (Generated/Funcs.v), is what the model uses ---- *)
+From Juniper Require Import Generated.Funcs Translated.FuncsOK.
+
+Theorem C05_translated_parent : forall i, go_heap_parent i = Heap.Model.parent i.
+Proof. exact go_heap_parent_ok. Qed.
+
+Theorem C05_translated_children : forall i, go_heap_children i = Heap.Model.children i.
+Proof. exact go_heap_children_ok. Qed.
+
+Print Assumptions C05_translated_parent.
+Print Assumptions C05_translated_children.
